@@ -249,6 +249,10 @@ def pair_configs():
         Pair("StatThresholdAnomaliser+MovingWindow/CUSUM", {"s": S("CUSUM")},
              S("StatThresholdAnomaliser", change_detector=S("MovingWindow", change_score=r, bandwidth=2, threshold_scale=1.0)),
              S("MovingWindow", change_score=r, bandwidth=3, threshold_scale=None, level=0.2), quick=False),
+        # two anomalisers wrapping ONE change detector instance (each fits its own clone: what one learns must not reach the other)
+        Pair("Anomaliser+Anomaliser/MovingWindow(tuned)", {"s": S("MovingWindow", change_score=None, bandwidth=2, threshold_scale=None, level=0.3, min_detection_interval=1)},
+             S("StatThresholdAnomaliser", change_detector=r, stat="np.mean", stat_lower=-1.0, stat_upper=1.0),
+             S("StatThresholdAnomaliser", change_detector=r, stat="np.median", stat_lower=-0.5, stat_upper=2.0)),
         # composite scorers sharing one cost instance (with each other / with a detector)
         Pair("ChangeScore+ChangeScore/L2Cost", {"s": S("L2Cost")}, S("ChangeScore", cost=r), S("ChangeScore", cost=r), deep=True),
         Pair("ChangeScore+PELT/L2Cost", {"s": S("L2Cost")}, S("ChangeScore", cost=r), S("PELT", cost=r, **pelt), quick=False, deep=True),
@@ -268,7 +272,7 @@ def datasets(seed):
     rng = np.random.default_rng(seed)
     a = np.round(np.r_[rng.normal(size=6), 8 + rng.normal(size=6)], 3).reshape(-1, 1)
     b = np.round(np.r_[rng.normal(size=(4, 2)), 6 + rng.normal(size=(4, 2)), rng.normal(size=(2, 2))], 3)
-    c = np.round(np.r_[3 + rng.normal(size=4), rng.normal(size=5)], 3).reshape(-1, 1)
+    c = np.round(40.0 * np.r_[3 + rng.normal(size=4), rng.normal(size=5)], 3).reshape(-1, 1)      # another length AND another scale (tuned thresholds differ by far)
     # D3: as many columns as D1 but another length (only ever the argument of the last call of a history)
     return {"D1": pd.DataFrame(a, columns=["x"]), "D2": pd.DataFrame(b, columns=["u", "v"]), "D3": pd.DataFrame(c, columns=["x"])}
 
@@ -585,6 +589,9 @@ def pair_reference(ctx, pair, who, fitted, op, arg):
 
 def pair_alphabet(pair, with_scores):
     out = []
+    uni = "Anomaliser" in pair.name          # univariate-only objects: the second data set is D3 (another length, one column) instead of D2
+    if uni:
+        return [(who, op, d) for who in ("a", "b") for op, d in (("fit", "D1"), ("fit", "D3"), ("predict", "D1"), ("predict", "D3"))]
     for who in ("a", "b"):
         out += [(who, "fit", "D1"), (who, "fit", "D2")]
         if pair.cls(who) in SCORERS:
